@@ -117,6 +117,7 @@ STOP = [
     'flate2::',
     '<flate2::',
     'std::hint::',
+    'core::slice::iter::<impl std::iter::IntoIterator for &*',
     '<*DateTime as std::convert::TryFrom<u32>>::try_from',
     'core::array::<impl [*; *]>::map*',
     'std::array::<impl [*; *]>::map*',
@@ -1271,6 +1272,7 @@ def _array_map(ex, fn, args):
 
 
 PREFIX_MODELS.append(('core::array::<impl []>::map', _array_map))
+PREFIX_MODELS.append(('core::slice::iter::<impl std::iter::IntoIterator for &', _slice_iter))
 PREFIX_MODELS.append(('std::array::<impl []>::map', _array_map))
 
 
